@@ -579,6 +579,487 @@ Proof.
   - unfold Inv. split; [reflexivity | exists []; rewrite app_nil_r; reflexivity].
 Qed.
 
+(* ================= eventual completion under weak fairness ================= *)
+
+(* the internal thread never waits with a finite timeout *)
+Definition untimed (p : pc) : Prop :=
+  match p with
+  | PRecvAbsorb CI WTimed | PRecvCS CI WTimed | PRecvNone CI WTimed | PRecvPark CI WTimed => False
+  | _ => True
+  end.
+
+Lemma next_reply_untimed : forall evd rs qt k p k' e', next_reply evd rs qt k = (p, k', e') -> untimed p.
+Proof.
+  intros evd rs qt k p k' e' H. unfold next_reply in H. destruct rs as [|[c m] rest]; inv H.
+  - destruct qt; [|destruct evd]; exact Coq.Init.Logic.I.
+  - destruct c; exact Coq.Init.Logic.I.
+Qed.
+
+Lemma dispatch_untimed : forall evd r k p k' e', dispatch react evd r k = (p, k', e') -> untimed p.
+Proof.
+  intros evd r k p k' e' H. unfold dispatch in H.
+  destruct r as [ | [y|] n | | | | | | ]; try (inv H; try destruct evd; exact Coq.Init.Logic.I).
+  destruct (next_reply evd (fst (react y)) (snd (react y)) k) as [[p1 k1] e1] eqn:En. inv H.
+  eapply next_reply_untimed; eauto.
+Qed.
+
+Lemma Step_untimed : forall c g l g' l' ev, ipc_ok l -> untimed (l_pc l) -> Step c g l g' l' ev -> untimed (l_pc l').
+Proof.
+  intros c g l g' l' ev Hi Hu HS.
+  inversion HS; subst; clear HS; unfold ipc_ok in Hi; simpl in Hi, Hu; try contradiction;
+    try exact Coq.Init.Logic.I;
+    repeat match goal with y : chanid |- _ => destruct y end; simpl in Hi, Hu; try contradiction;
+    try exact Coq.Init.Logic.I;
+    try (match goal with y : ThreadQ.wake |- _ => destruct y end; simpl in *; try contradiction; exact Coq.Init.Logic.I);
+    try (match type of Hi with match ?kk with _ => _ end => destruct kk as [|[] [|? ?]] end; try contradiction);
+    match goal with Hr : ret _ _ _ _ = _ |- _ =>
+      first [ eapply dispatch_untimed; exact Hr | eapply next_reply_untimed; exact Hr ] end.
+Qed.
+
+Lemma reachable_untimed : forall s, R s -> g_ist (s_g s) = ILive -> untimed (l_pc (g_il (s_g s))).
+Proof.
+  intros s Rs. induction Rs as [|s lab s' ev Rs IH _ Hs]; [intros H; discriminate|].
+  pose proof (reachable_wf false absorb_n no_limit react any_label smode emode s Rs) as W0.
+  intros Hl'. destruct lab as [t o | [t|] c]; simpl in Hs.
+  - destruct (begin_op t o (s_l s t)); [|discriminate]. inv Hs. simpl in *. auto.
+  - destruct (step c (s_g s) (s_l s t)) as [[[g' l'] e']|] eqn:Hst; [|discriminate]. inv Hs. simpl in *.
+    apply step_spec in Hst.
+    destruct (Step_running _ _ _ _ _ _ _ _ _ _ Hst) as [[n Hn] | [Hj | [Hx | (R1 & R2 & R3 & R4)]]].
+    + destruct (s_l s t) as [p k]. simpl in Hn. subst p. inversion Hst; subst. simpl. exact Coq.Init.Logic.I.
+    + destruct (s_l s t) as [p k]. simpl in Hj. subst p. inversion Hst; subst. simpl in Hl'. discriminate.
+    + pose proof (wf_upc _ _ _ W0 t) as Hu. destruct (s_l s t) as [p k]. simpl in Hx. subst p.
+      unfold upc_ok in Hu. simpl in Hu. contradiction.
+    + rewrite R3. apply IH. congruence.
+  - destruct (g_ist (s_g s)) eqn:Hl; try discriminate.
+    destruct (step c (s_g s) (g_il (s_g s))) as [[[g' l'] e']|] eqn:Hst; [|discriminate]. inv Hs. simpl in *.
+    apply step_spec in Hst. eapply Step_untimed; [apply (wf_ipc _ _ _ W0 Hl) | apply IH; reflexivity | exact Hst].
+Qed.
+
+(* appending behind a NULL Message does not change the work ahead of the thread *)
+Lemma go_app : forall evd q w l, In None q -> go evd w (q ++ l) = go evd w q.
+Proof.
+  intros evd q. induction q as [|[x|] r IH]; intros w l Hin; simpl in *; try tauto.
+  destruct Hin as [E | Hin]; [discriminate|]. rewrite (IH _ l Hin). reflexivity.
+Qed.
+
+Lemma W_app : forall sk evd l q m, In None q \/ exiting (l_pc l) = true -> W sk evd l (q ++ [m]) = W sk evd l q.
+Proof.
+  intros sk evd [p k] q m [Hin | Hx].
+  - unfold W, wloop, final. simpl.
+    destruct p; try reflexivity;
+      repeat match goal with
+      | |- context [match ?y with CI => _ | CO => _ end] => destruct y
+      | |- context [match ?y with WPoll => _ | WNever => _ | WTimed => _ end] => destruct y
+      | |- context [match ?y with Some _ => _ | None => _ end] => destruct y
+      | |- context [match ?y with [] => _ | _ :: _ => _ end] => destruct y
+      | |- context [match ?y with KShutdown _ => _ | KDiscard => _ | KLoop => _ | KReplies _ _ => _ end] => destruct y
+      | |- context [if ?y then _ else _] => destruct y
+      end; rewrite ?go_app by exact Hin; reflexivity.
+  - simpl in Hx. destruct p; try discriminate; [destruct c; try discriminate; destruct m0; try discriminate|]; reflexivity.
+Qed.
+
+(* a user thread's step never makes the internal thread's wait unsatisfiable *)
+Lemma user_readable_mono : forall t c g l g' l' ev,
+  wfg g -> g_ist g = ILive -> upc_ok t l -> (forall n, l_pc l <> PStartSpawn n) ->
+  Step c g l g' l' ev -> readable g CI = true -> readable g' CI = true.
+Proof.
+  intros t c g l g' l' ev Wg Hl Hu Hns HS Hr.
+  inversion HS; subst; clear HS; unfold upc_ok in Hu; simpl in Hu; try contradiction; auto;
+    try (rewrite readable_set_enq; exact Hr);
+    try (rewrite readable_set_deq; exact Hr);
+    try (eapply signal_readable_mono; eauto; fail);
+    try (exfalso; eapply Hns; reflexivity);
+    try congruence.
+  - (* absorb: on the reply side only *)
+    destruct x; [destruct k; contradiction|].
+    pose proof (absorb_frame absorb_n CO g) as F. simpl in F. destruct F as (F1 & _ & _ & _ & _ & _ & _ & _ & _ & F10).
+    rewrite (readable_CI_same g _); auto. apply F10. discriminate.
+  - destruct x; [destruct k; contradiction|]. unfold park_flags. destruct (u_reg (g_usr g)); exact Hr.
+  - destruct x; [destruct k; contradiction|]. exact Hr.
+  - rewrite (alloc_noop _ Wg Hl). exact Hr.
+  - destruct x; [destruct k; contradiction|]. unfold park_flags. destruct (u_reg (g_usr g)); exact Hr.
+  - match goal with Hu' : user_step _ _ = _ |- _ => apply user_step_frame in Hu'; destruct Hu' as [? ->] end. exact Hr.
+Qed.
+
+Lemma odist_ge1 : forall p, 1 <= odist p.
+Proof. intros p. destruct p; simpl; lia. Qed.
+
+Ltac kill_ret :=
+  repeat match goal with
+  | Hr : ret _ _ _ _ = _ |- _ => simpl in Hr
+  | Hr : (if ?w then _ else _) = (_, _, _) |- _ => destruct w
+  | Hr : (_, _, _) = (_, _, _) |- _ => inv Hr
+  end.
+
+(* a user thread's own step does not move it away from sending the initial signal *)
+Lemma user_odist : forall t c g l g' l' ev, upc_ok t l -> (forall n, l_pc l <> PStartSpawn n) ->
+  Step c g l g' l' ev -> odist (l_pc l') <= odist (l_pc l).
+Proof.
+  intros t c g l g' l' ev Hu Hns HS. pose proof (odist_ge1 (l_pc l)) as H1.
+  inversion HS; subst; clear HS; unfold upc_ok in Hu; simpl in Hu, H1 |- *; try contradiction; try lia;
+    try (exfalso; eapply Hns; reflexivity);
+    repeat match goal with y : chanid |- _ => destruct y | y : msg |- _ => destruct y | y : uop |- _ => destruct y end;
+    simpl in Hu; try contradiction;
+    try (destruct k as [|[] [|? ?]]; simpl in Hu; try contradiction; kill_ret; simpl; lia).
+Qed.
+
+Lemma pen_le : forall s s',
+  g_evd (s_g s') = g_evd (s_g s) -> g_il (s_g s') = g_il (s_g s) ->
+  (readable (s_g s) CI = true -> readable (s_g s') CI = true) ->
+  odist (l_pc (s_l s' 0)) <= odist (l_pc (s_l s 0)) -> pen s' <= pen s.
+Proof.
+  intros s s' He Hi Hr Ho. unfold pen. rewrite He, Hi.
+  destruct (will_look (g_evd (s_g s)) (l_pc (g_il (s_g s)))); [lia|].
+  destruct (readable (s_g s) CI) eqn:E; [rewrite Hr by reflexivity; lia|].
+  destruct (readable (s_g s') CI); lia.
+Qed.
+
+(* a live thread with a NULL Message ahead of it (or taken): what it still has to do does not depend on what is appended *)
+Lemma null_seen_W : forall s, g_ist (s_g s) = ILive -> null_seen s ->
+  In None (c_q (g_ci (s_g s))) \/ exiting (l_pc (g_il (s_g s))) = true.
+Proof. intros s Hl [A | [[_ B] | C]]; auto. congruence. Qed.
+
+(* Steps of anybody but the internal thread leave it alive, keep the NULL Message in sight and do not increase the measure *)
+Lemma other_le : forall s lab s' ev, R s -> g_ist (s_g s) = ILive -> null_seen s ->
+  (forall c, lab <> LStep I c) -> sys_step s lab = Some (s', ev) ->
+  g_ist (s_g s') = ILive /\ null_seen s' /\ mu s' <= mu s /\ g_il (s_g s') = g_il (s_g s) /\
+  (readable (s_g s) CI = true -> readable (s_g s') CI = true) /\
+  (forall u, (forall c, lab <> LStep (U u) c) -> l_pc (s_l s' u) = l_pc (s_l s u) \/ l_pc (s_l s u) = PIdle).
+Proof.
+  intros s lab s' ev Rs Hl G Hni H.
+  pose proof (reachable_wf false absorb_n no_limit react any_label smode emode s Rs) as W0.
+  pose proof (wf_wfg _ _ _ W0) as Wg.
+  destruct lab as [t o | [t|] c]; simpl in H.
+  - (* a call begins *)
+    destruct (begin_op t o (s_l s t)) eqn:Hb; [|discriminate]. inv H.
+    unfold begin_op in Hb. destruct (l_pc (s_l s t)) eqn:Hp; try discriminate.
+    destruct (l_k (s_l s t)) eqn:Hk; try discriminate. destruct (allowed t o); [|discriminate]. inv Hb.
+    simpl. repeat split; auto.
+    + unfold mu. simpl. apply Nat.add_le_mono_l. apply pen_le; simpl; auto.
+      unfold upd. destruct (Nat.eqb_spec 0 t); [subst t; rewrite Hp | lia]. simpl. destruct o as [? ?| | | | | | []]; simpl; lia.
+    + intros u _. unfold upd. destruct (Nat.eqb_spec u t); [subst u; right; exact Hp | left; reflexivity].
+  - (* a user thread's step *)
+    destruct (step c (s_g s) (s_l s t)) as [[[g' l'] e']|] eqn:Hst; [|discriminate]. inv H.
+    apply step_spec in Hst.
+    pose proof (wf_upc _ _ _ W0 t) as Hu.
+    assert (Hrun : g_running (s_g s) = true) by (rewrite (wf_running _ _ _ W0), Hl; reflexivity).
+    assert (Hns : forall n, l_pc (s_l s t) <> PStartSpawn n).
+    { intros n Hn. assert (t = 0).
+      { unfold upc_ok in Hu. rewrite Hn in Hu. destruct (l_k (s_l s t)); [exact Hu | contradiction]. }
+      subst t. rewrite (wf_start_idle _ _ _ W0 n Hn) in Hrun. discriminate. }
+    destruct (Step_const _ _ _ _ _ _ _ _ _ _ Hst) as [Hc1 Hc2].
+    assert (Hsame : g_ist g' = g_ist (s_g s) /\ g_il g' = g_il (s_g s)).
+    { destruct (Step_running _ _ _ _ _ _ _ _ _ _ Hst) as [[n Hn] | [Hj | [Hx | (R1 & R2 & R3 & R4)]]]; auto.
+      - exfalso. eapply Hns; eauto.
+      - exfalso. destruct (s_l s t) as [p k]. simpl in Hj. subst p. inversion Hst; subst. congruence.
+      - exfalso. destruct (s_l s t) as [p k]. simpl in Hx. subst p. unfold upc_ok in Hu. simpl in Hu. contradiction. }
+    destruct Hsame as [I1 I2].
+    assert (Hrd : readable (s_g s) CI = true -> readable g' CI = true) by (eapply user_readable_mono; eauto).
+    assert (Hq : c_q (g_ci g') = c_q (g_ci (s_g s)) \/ exists m, c_q (g_ci g') = c_q (g_ci (s_g s)) ++ [m]).
+    { destruct (Step_qi_user absorb_n no_limit react _ _ _ _ _ _ _ Hu Hst) as [Q | [m Hm]]; [left; exact Q | right].
+      destruct (s_l s t) as [p k]. simpl in Hm. subst p. inversion Hst; subst. exists m. reflexivity. }
+    pose proof (null_seen_W s Hl G) as GW.
+    simpl. split; [congruence|]. split; [|split; [|split; [exact I2 | split; [exact Hrd|]]]].
+    + (* the NULL Message stays in sight *)
+      unfold null_seen in *. simpl. rewrite I1, I2.
+      destruct G as [A | [B | C]]; auto. left.
+      destruct Hq as [-> | [m ->]]; [exact A | apply in_or_app; left; exact A].
+    + (* the measure *)
+      unfold mu. simpl. rewrite Hc1, Hc2, I2.
+      assert (HW : W (g_sockets (s_g s)) (g_evd (s_g s)) (g_il (s_g s)) (c_q (g_ci g')) =
+                   W (g_sockets (s_g s)) (g_evd (s_g s)) (g_il (s_g s)) (c_q (g_ci (s_g s)))).
+      { destruct Hq as [-> | [m ->]]; [reflexivity | apply W_app; exact GW]. }
+      rewrite HW. apply Nat.add_le_mono_l. apply pen_le; simpl; auto.
+      unfold upd. destruct (Nat.eqb_spec 0 t); [subst t; eapply user_odist; eauto | lia].
+    + intros u Hnu. unfold upd. destruct (Nat.eqb_spec u t); [subst u; exfalso; eapply Hnu; reflexivity | left; reflexivity].
+  - exfalso. eapply Hni; reflexivity.
+Qed.
+
+Lemma blocked_no_step : forall g l, blocked g l = true -> step CRun g l = None.
+Proof.
+  intros g [p k] Hb. unfold blocked in Hb. simpl in Hb. unfold ThreadQ.step. simpl.
+  destruct p; try discriminate; try reflexivity.
+  - apply negb_true_iff in Hb. rewrite Hb. destruct w; reflexivity.
+  - destruct (g_ist g); try discriminate; reflexivity.
+  - apply negb_true_iff in Hb. rewrite Hb. reflexivity.
+Qed.
+
+(* when the internal thread is blocked, the step of ANY thread that owes it a signal brings the wake-up closer *)
+Lemma sig_strict : forall s u, wf smode emode s -> g_ist (s_g s) = ILive ->
+  blocked (s_g s) (g_il (s_g s)) = true -> c_q (g_ci (s_g s)) <> [] ->
+  is_pend_i (l_pc (s_l s u)) = true ->
+  exists s' ev, sys_step s (LStep (U u) CRun) = Some (s', ev) /\ g_ist (s_g s') = ILive /\ mu s' < mu s.
+Proof.
+  intros s u W0 Hl Hb Hq Pu.
+  pose proof (wf_ipc _ _ _ W0 Hl) as Hi.
+  destruct (blocked_int _ _ Hi Hb) as [Hw Hr].
+  destruct (step_enabled false absorb_n no_limit react _ _ (pend_i_unblocked (s_g s) _ Pu)) as [[[g' l'] e] Hx].
+  exists (mkS g' (upd (s_l s) u l')), e.
+  split; [simpl; rewrite Hx; reflexivity|].
+  apply step_spec in Hx.
+  pose proof (wf_upc _ _ _ W0 u) as Hup.
+  pose proof (wf_live_sock _ _ _ W0 Hl) as Hsock.
+  unfold mu, pen. simpl. rewrite Hw, Hr.
+  destruct (s_l s u) as [p k] eqn:El. simpl in Pu.
+  assert (Hod : 1 <= odist (l_pc (s_l s 0))) by apply odist_ge1.
+  destruct p; try discriminate.
+  - destruct c; try discriminate. destruct first; try discriminate.
+    inversion Hx; subst; clear Hx.
+    match goal with Hs : signal _ _ _ = _ |- _ => pose proof Hs as Hsig; apply signal_frame in Hs;
+      destruct Hs as (F1 & F2 & F3 & F4 & F5 & F6 & F7 & F8 & F9 & F10 & F11 & F12) end.
+    split; [congruence|].
+    rewrite F1, F2, F7. destruct (F9 CI) as (Q & _). simpl in Q. rewrite Q. rewrite Hw.
+    rewrite (signal_CI_readable _ _ _ _ Hnl Hsig) by (intros Hs; apply Hsock; exact Hs). lia.
+  - assert (u = 0) by (unfold upc_ok in Hup; simpl in Hup; destruct k; [exact Hup | contradiction]). subst u.
+    inversion Hx; subst; clear Hx. split; [exact Hl|].
+    rewrite Hw, Hr. simpl. rewrite El. simpl. lia.
+  - assert (u = 0) by (unfold upc_ok in Hup; simpl in Hup; destruct k; [exact Hup | contradiction]). subst u.
+    inversion Hx; subst; clear Hx. split; [exact Hl|].
+    rewrite Hw, Hr. simpl. rewrite El. simpl.
+    destruct (c_q (g_ci (s_g s))); [contradiction | simpl; lia].
+  - destruct needs; try discriminate.
+    inversion Hx; subst; clear Hx.
+    match goal with Hs : signal _ _ _ = _ |- _ => pose proof Hs as Hsig; apply signal_frame in Hs;
+      destruct Hs as (F1 & F2 & F3 & F4 & F5 & F6 & F7 & F8 & F9 & F10 & F11 & F12) end.
+    split; [congruence|].
+    rewrite F1, F2, F7. destruct (F9 CI) as (Q & _). simpl in Q. rewrite Q. rewrite Hw.
+    rewrite (signal_CI_readable _ _ _ _ Hnl Hsig) by (intros Hs; apply Hsock; exact Hs). lia.
+Qed.
+
+(* ---------- infinite executions (with stuttering) and weak fairness ---------- *)
+
+Record frun := mkRun {
+  f_st : nat -> sys;
+  f_lb : nat -> option label;
+  f_step : forall i, match f_lb i with
+                     | Some lab => exists ev, sys_step (f_st i) lab = Some (f_st (S i), ev)
+                     | None => f_st (S i) = f_st i
+                     end
+}.
+
+Definition en_I (s : sys) : Prop := exists x, sys_step s (LStep I CRun) = Some x.
+Definition en_U (t : tid) (s : sys) : Prop := exists x, sys_step s (LStep (U t) CRun) = Some x.
+
+(* weak fairness: a step that is enabled is eventually taken, unless it gets disabled *)
+Definition fair (r : frun) : Prop :=
+  (forall i, exists j, i <= j /\ (f_lb r j = Some (LStep I CRun) \/ ~ en_I (f_st r j))) /\
+  (forall t i, exists j, i <= j /\ (f_lb r j = Some (LStep (U t) CRun) \/ ~ en_U t (f_st r j))).
+
+Lemma run_reach : forall r, R (f_st r 0) -> forall i, R (f_st r i).
+Proof.
+  intros r R0 i. induction i; [exact R0|].
+  pose proof (f_step r i) as Hs. destruct (f_lb r i).
+  - destruct Hs as [ev Hs]. eapply reach_step; eauto.
+  - rewrite Hs. exact IHi.
+Qed.
+
+Lemma no_int_timeout : forall s, R s -> g_ist (s_g s) = ILive -> sys_step s (LStep I CTimeout) = None.
+Proof.
+  intros s Rs Hl. simpl. rewrite Hl.
+  pose proof (reachable_untimed s Rs Hl) as Hu.
+  pose proof (wf_ipc _ _ _ (reachable_wf false absorb_n no_limit react any_label smode emode s Rs) Hl) as Hi.
+  destruct (g_il (s_g s)) as [p k]. unfold ipc_ok in Hi. simpl in *. unfold ThreadQ.step. simpl.
+  destruct p; try reflexivity; try contradiction.
+  destruct w; try reflexivity.
+  destruct c; [contradiction | destruct k as [|[] [|? ?]]; contradiction].
+Qed.
+
+Lemma blocked_mono : forall g g' l, ipc_ok l -> blocked g l = false ->
+  (readable g CI = true -> readable g' CI = true) -> blocked g' l = false.
+Proof.
+  intros g g' [p k] Hi Hb Hr. unfold ipc_ok in Hi. unfold blocked in *. simpl in *.
+  destruct p; try reflexivity; try contradiction; try discriminate.
+  - destruct c; [|destruct k as [|[] [|? ?]]; contradiction].
+    rewrite wakeable_CI in *. apply negb_false_iff in Hb. rewrite (Hr Hb). reflexivity.
+  - apply negb_false_iff in Hb. rewrite (Hr Hb). reflexivity.
+Qed.
+
+Lemma pend_no_timeout : forall g l, is_pend_i (l_pc l) = true -> step CTimeout g l = None.
+Proof. intros g [p k] H. simpl in H. unfold ThreadQ.step. simpl. destruct p; try discriminate; reflexivity. Qed.
+
+Definition good (s : sys) (n : nat) : Prop := g_ist (s_g s) = ILive /\ null_seen s /\ mu s <= n.
+
+Definition blk (s : sys) : bool := blocked (s_g s) (g_il (s_g s)).
+Definition pend (s : sys) (u : tid) : bool := is_pend_i (l_pc (s_l s u)).
+
+(* one position of an execution *)
+Lemma one_step : forall r i n, R (f_st r 0) -> good (f_st r i) n ->
+  g_ist (s_g (f_st r (S i))) = IExited \/
+  (good (f_st r (S i)) n /\
+   (f_lb r i = Some (LStep I CRun) -> mu (f_st r (S i)) < mu (f_st r i)) /\
+   (f_lb r i <> Some (LStep I CRun) -> blk (f_st r i) = false -> blk (f_st r (S i)) = false) /\
+   (forall u, f_lb r i <> Some (LStep (U u) CRun) -> pend (f_st r i) u = true -> pend (f_st r (S i)) u = true) /\
+   (forall u, f_lb r i = Some (LStep (U u) CRun) -> pend (f_st r i) u = true -> blk (f_st r i) = true ->
+              mu (f_st r (S i)) < mu (f_st r i))).
+Proof.
+  intros r i n R0 (Hl & G & Hm).
+  pose proof (run_reach r R0 i) as Rs.
+  pose proof (reachable_wf false absorb_n no_limit react any_label smode emode _ Rs) as W0.
+  pose proof (f_step r i) as Hs.
+  destruct (f_lb r i) as [lab|] eqn:Elb.
+  2:{ right. rewrite Hs. split; [split; [exact Hl | split; [exact G | exact Hm]]|].
+      split; [intros H; discriminate|]. split; [auto|]. split; [auto | intros u H; discriminate]. }
+  destruct Hs as [ev Hs].
+  destruct lab as [t o | [t|] c].
+  - (* a call begins *)
+    assert (Hni : forall c, LBegin t o <> LStep I c) by (intros c H; discriminate H).
+    destruct (other_le _ _ _ _ Rs Hl G Hni Hs) as (L' & G' & M' & I' & Rd & P').
+    right. split; [split; [exact L' | split; [exact G' | lia]]|].
+    split; [intros H; discriminate|]. split.
+    + intros _ Hb. unfold blk in *. rewrite I'. eapply blocked_mono; eauto. apply (wf_ipc _ _ _ W0 Hl).
+    + split; [|intros u H; discriminate].
+      intros u _ Pu. unfold pend in *.
+      assert (Hnu : forall c, LBegin t o <> LStep (U u) c) by (intros c H; discriminate H).
+      destruct (P' u Hnu) as [E | E]; [rewrite E; exact Pu|].
+      rewrite E in Pu. discriminate.
+  - (* a user thread's step *)
+    assert (Hni : forall c0, LStep (U t) c <> LStep I c0) by (intros c0 H; discriminate H).
+    destruct (other_le _ _ _ _ Rs Hl G Hni Hs) as (L' & G' & M' & I' & Rd & P').
+    right. split; [split; [exact L' | split; [exact G' | lia]]|].
+    split; [intros H; discriminate|]. split.
+    + intros _ Hb. unfold blk in *. rewrite I'. eapply blocked_mono; eauto. apply (wf_ipc _ _ _ W0 Hl).
+    + split.
+      * intros u Hnu Pu. unfold pend in *.
+        destruct (Nat.eq_dec u t) as [-> | Hne].
+        -- destruct c; [exfalso; apply Hnu; reflexivity|].
+           exfalso. simpl in Hs. rewrite (pend_no_timeout _ _ Pu) in Hs. discriminate.
+        -- destruct (P' u) as [E | E]; [intros c0 H; inv H; congruence | rewrite E; exact Pu | rewrite E in Pu; discriminate].
+      * intros u Hu Pu Hb. inv Hu.
+        assert (Hq : c_q (g_ci (s_g (f_st r i))) <> []).
+        { destruct (null_seen_W _ Hl G) as [A | B]; [intros E; rewrite E in A; exact A|].
+          exfalso. unfold blk in Hb. destruct (blocked_int _ _ (wf_ipc _ _ _ W0 Hl) Hb) as [Hw _].
+          rewrite (exiting_looks _ _ B) in Hw. discriminate. }
+        destruct (sig_strict _ u W0 Hl Hb Hq Pu) as (s' & ev' & Hs' & _ & Hlt).
+        rewrite Hs in Hs'. inv Hs'. exact Hlt.
+  - (* the internal thread's step *)
+    destruct c.
+    + assert (Hb : blk (f_st r i) = false).
+      { unfold blk. destruct (blocked (s_g (f_st r i)) (g_il (s_g (f_st r i)))) eqn:Hb; [|reflexivity].
+        exfalso. simpl in Hs. rewrite Hl, (blocked_no_step _ _ Hb) in Hs. discriminate. }
+      destruct (int_progress _ W0 Hl Hb (reachable_ro _ Rs Hl)) as (s' & ev' & Hs' & Hc).
+      rewrite Hs in Hs'. inv Hs'.
+      destruct Hc as [Hx | [Hd | [Hl' Hlt]]].
+      * left. exact Hx.
+      * destruct Hd as [Hx | (Hl' & Hq' & Hw')]; [left; exact Hx|].
+        (* nothing left to receive and about to block: impossible with a NULL Message in sight *)
+        exfalso.
+        assert (G' : null_seen (f_st r (S i))) by (eapply helper_keeps_null_seen; eauto; left; reflexivity).
+        destruct G' as [A | [[_ B] | C]].
+        -- rewrite Hq' in A. exact A.
+        -- rewrite (exiting_looks _ _ B) in Hw'. discriminate.
+        -- congruence.
+      * right. split.
+        -- split; [exact Hl'|]. split; [eapply helper_keeps_null_seen; eauto; left; reflexivity | lia].
+        -- split; [intros _; exact Hlt|]. split; [intros H; exfalso; apply H; reflexivity|].
+           split; [|intros u H; discriminate].
+           intros u _ Pu. unfold pend in *. simpl in Hs. rewrite Hl in Hs.
+           destruct (step CRun (s_g (f_st r i)) (g_il (s_g (f_st r i)))) as [[[g' l'] e']|]; [|discriminate].
+           injection Hs as E1 E2. rewrite <- E1. simpl. exact Pu.
+    + exfalso. rewrite (no_int_timeout _ Rs Hl) in Hs. discriminate.
+Qed.
+
+Definition is_int_run (ol : option label) : bool :=
+  match ol with Some (LStep I CRun) => true | _ => false end.
+Definition is_u_run (u : tid) (ol : option label) : bool :=
+  match ol with Some (LStep (U t) CRun) => Nat.eqb t u | _ => false end.
+
+Lemma is_int_run_spec : forall ol, is_int_run ol = true <-> ol = Some (LStep I CRun).
+Proof. intros [[t o|[t|] []]|]; simpl; split; intros H; try discriminate; auto. Qed.
+
+Lemma is_u_run_spec : forall u ol, is_u_run u ol = true <-> ol = Some (LStep (U u) CRun).
+Proof.
+  intros u [[t o|[t|] []]|]; simpl; split; intros H; try discriminate; auto.
+  - apply Nat.eqb_eq in H. subst. reflexivity.
+  - inv H. apply Nat.eqb_refl.
+Qed.
+
+Section OneRun.
+Variable r : frun.
+Hypothesis R0 : R (f_st r 0).
+Hypothesis Hfair : fair r.
+
+Notation st := (f_st r).
+Notation lb := (f_lb r).
+
+Definition closer (i n : nat) : Prop :=
+  exists j, i <= j /\ (g_ist (s_g (st j)) = IExited \/ (good (st j) n /\ mu (st j) < n)).
+
+(* the internal thread is not blocked: it stays so until it takes its step, which weak fairness grants *)
+Lemma unblocked_closer : forall d i n, good (st i) n -> blk (st i) = false ->
+  (lb (i + d) = Some (LStep I CRun) \/ ~ en_I (st (i + d))) -> closer i n.
+Proof.
+  induction d as [|d IH]; intros i n Hg Hb Hw.
+  - rewrite Nat.add_0_r in Hw.
+    destruct (one_step r i n R0 Hg) as [Hx | (Hg' & Hlt & _)]; [exists (S i); split; [lia | left; exact Hx]|].
+    destruct Hw as [Hw | Hw].
+    + exists (S i). split; [lia|]. right. split; [exact Hg'|]. destruct Hg as (_ & _ & Hm). specialize (Hlt Hw). lia.
+    + exfalso. apply Hw. destruct Hg as (Hl & _). apply (int_enabled absorb_n no_limit react); assumption.
+  - destruct (one_step r i n R0 Hg) as [Hx | (Hg' & Hlt & Hpb & _)]; [exists (S i); split; [lia | left; exact Hx]|].
+    destruct (is_int_run (lb i)) eqn:Ei.
+    + apply is_int_run_spec in Ei. exists (S i). split; [lia|]. right. split; [exact Hg'|].
+      destruct Hg as (_ & _ & Hm). specialize (Hlt Ei). lia.
+    + assert (Hne : lb i <> Some (LStep I CRun)) by (intros E; apply is_int_run_spec in E; congruence).
+      destruct (IH (S i) n Hg' (Hpb Hne Hb)) as (j & Hj & Hc); [replace (S i + d) with (i + S d) by lia; exact Hw|].
+      exists j. split; [lia | exact Hc].
+Qed.
+
+(* the internal thread is blocked: a thread that owes it the signal stays pending until it steps, which weak fairness
+   grants; that step, or an earlier one that unblocks the internal thread, brings completion closer *)
+Lemma blocked_closer : forall d i n u, good (st i) n -> pend (st i) u = true ->
+  (lb (i + d) = Some (LStep (U u) CRun) \/ ~ en_U u (st (i + d))) -> closer i n.
+Proof.
+  induction d as [|d IH]; intros i n u Hg Pu Hw.
+  - rewrite Nat.add_0_r in Hw.
+    destruct (blk (st i)) eqn:Hb.
+    2:{ destruct (proj1 Hfair i) as (j & Hj & Hwj). replace j with (i + (j - i)) in Hwj by lia.
+        eapply unblocked_closer; eauto. }
+    destruct (one_step r i n R0 Hg) as [Hx | (Hg' & _ & _ & _ & Hstrict)]; [exists (S i); split; [lia | left; exact Hx]|].
+    destruct Hw as [Hw | Hw].
+    + exists (S i). split; [lia|]. right. split; [exact Hg'|]. destruct Hg as (_ & _ & Hm). specialize (Hstrict u Hw Pu Hb). lia.
+    + exfalso. apply Hw. apply (user_enabled absorb_n no_limit react). apply pend_i_unblocked. exact Pu.
+  - destruct (blk (st i)) eqn:Hb.
+    2:{ destruct (proj1 Hfair i) as (j & Hj & Hwj). replace j with (i + (j - i)) in Hwj by lia.
+        eapply unblocked_closer; eauto. }
+    destruct (one_step r i n R0 Hg) as [Hx | (Hg' & _ & _ & Hpp & Hstrict)]; [exists (S i); split; [lia | left; exact Hx]|].
+    destruct (is_u_run u (lb i)) eqn:Eu.
+    + apply is_u_run_spec in Eu. exists (S i). split; [lia|]. right. split; [exact Hg'|].
+      destruct Hg as (_ & _ & Hm). specialize (Hstrict u Eu Pu Hb). lia.
+    + assert (Hne : lb i <> Some (LStep (U u) CRun)) by (intros E; apply is_u_run_spec in E; congruence).
+      destruct (IH (S i) n u Hg' (Hpp u Hne Pu)) as (j & Hj & Hc); [replace (S i + d) with (i + S d) by lia; exact Hw|].
+      exists j. split; [lia | exact Hc].
+Qed.
+
+(* Under weak fairness a shutdown completes: once a NULL Message is queued for (or taken by) the live internal thread,
+   the thread eventually finishes -- whatever the other threads do meanwhile. *)
+Theorem shutdown_eventually_completes : forall i, g_ist (s_g (st i)) = ILive -> null_seen (st i) ->
+  exists j, i <= j /\ g_ist (s_g (st j)) = IExited.
+Proof.
+  intros i Hl G.
+  assert (Hg : good (st i) (mu (st i))) by (split; [exact Hl | split; [exact G | lia]]).
+  remember (mu (st i)) as n eqn:En. clear En. revert i Hl G Hg.
+  induction n as [n IH] using lt_wf_ind. intros i Hl G Hg.
+  assert (Hc : closer i n).
+  { destruct (blk (st i)) eqn:Hb.
+    - pose proof (run_reach r R0 i) as Rs.
+      pose proof (reachable_wf false absorb_n no_limit react any_label smode emode _ Rs) as W0.
+      pose proof (reachable_wake absorb_n no_limit react Hnl any_label smode emode _ Rs) as Wk.
+      destruct (blocked_int _ _ (wf_ipc _ _ _ W0 Hl) Hb) as [Hw Hr].
+      assert (Hq : c_q (g_ci (s_g (st i))) <> []).
+      { destruct (null_seen_W _ Hl G) as [A | B]; [intros E; rewrite E in A; exact A|].
+        rewrite (exiting_looks _ _ B) in Hw. discriminate. }
+      destruct (wk_ai _ Wk Hl Hw Hq) as [Rd | [u Pu]]; [congruence|].
+      destruct (proj2 Hfair u i) as (j & Hj & Hwj). replace j with (i + (j - i)) in Hwj by lia.
+      eapply blocked_closer; eauto.
+    - destruct (proj1 Hfair i) as (j & Hj & Hwj). replace j with (i + (j - i)) in Hwj by lia.
+      eapply unblocked_closer; eauto. }
+  destruct Hc as (j & Hj & [Hx | (Hg' & Hlt)]); [exists j; auto|].
+  destruct Hg' as (Hl' & G' & Hm').
+  destruct (IH (mu (st j)) Hlt j Hl' G') as (j' & Hj' & Hx); [split; [exact Hl' | split; [exact G' | lia]]|].
+  exists j'. split; [lia | exact Hx].
+Qed.
+
+End OneRun.
+
 End Progress.
 
 Example ex_null_seen : forall n nl, exists s, reachable_if false n nl react0 any_label true false s /\
